@@ -201,3 +201,50 @@ def shutdown_with_misbehaving_components(chk, prop="C18"):
             if case["backend_fault"] and r["saves"] == 0:
                 chk.dist("backend_fault_state_not_saved (outside the quantifier: noted)")
     return len(cases)
+
+
+def state_saved_after_failed_restore(chk, prop="C18"):
+    """restore_state on and a stored session that says "was playing"; at the next start the backend
+    that owns the track is out of service (playback.play raises), so Core._load_state ends in the
+    "Restore state: Unexpected error" handler after having consumed (deleted) the state file.  The
+    command keeps running and, whenever it is terminated, must still save the state exactly once;
+    the tracklist that was restored before the failure must be in it."""
+    base = {"hm": 1, "om": OK, "oa": OK, "early": 0, "obs": [OK], "oc": OK, "ofs": [OK], "seed_play": 1}
+    cases = [dict(base, ol=ol, play_fault=f) for f in ("play", "change_track", None) for ol in (LQUIT, LKBD, LEXC)]
+    results = c18.run_parallel("session", cases, per_case_timeout=40, jobs=5)
+    happened = 0
+    for i, case in enumerate(cases):
+        r = results.get(i)
+        if r is None or r.get("skipped"):
+            continue
+        chk.count(1, nontrivial_key=("failed-restore", case["play_fault"], case["ol"]))
+        key = {"property": prop, "restore": "failed" if case["play_fault"] == "play" else "clean"}
+        scenario = {"first run": "add s0:t0, s0:t1; play (track current); quit -> state saved as playing",
+                    "second run": f"backend playback.{case['play_fault']} raises" if case["play_fault"] else "no fault",
+                    "main loop ends by": ["quit", "KeyboardInterrupt", "exception"][case["ol"]]}
+        if "hang" in r or "harness_error" in r:
+            chk.monitor_failure("state_saved", {**key, "hang": True}, "the scenario did not complete",
+                                {"scenario": scenario, "oracle": case, "detail": r})
+            continue
+        sec = r["second"]
+        if sec["restore_raised"]:
+            happened += 1
+            chk.dist("restore_failed_then_shutdown")
+        else:
+            chk.dist("restore_clean_then_shutdown")
+        if r["first_saves"] != 1 or r["before"] is None or r["before"].get("playback") != "playing":
+            chk.notes.append(f"{prop}: failed-restore scenario: seeding run did not store a playing session: {r}")
+            continue
+        if sec["saves"] != 1 or r["after"] is None or r["after"].get("unreadable") \
+                or r["after"]["tracks"] != r["before"]["tracks"]:
+            chk.monitor_failure(
+                "state_saved", key,
+                "restore_state on, core running: after a start-up whose state restore "
+                + ("ended in an error " if sec["restore_raised"] else "")
+                + f"the state was saved {sec['saves']} time(s) at shutdown"
+                + (" and no state file is left (the old one was consumed by the restore)" if r["after"] is None else ""),
+                {"scenario": scenario, "oracle": case, "restore_raised": sec["restore_raised"],
+                 "session_before": r["before"], "session_after": r["after"], "second_run": sec})
+    if not happened:
+        chk.obligation("scenario:failed-restore", "audit", False, "no run had Core._load_state raise")
+    return len(cases)
